@@ -129,3 +129,25 @@ CHECKS["C17"] = {
          "params_thorough": {"MAXPARTS": 2, "OPS": 2, "OPS2": 2, "MAXW": 2, "MAXBUF": 1}, "reach": ["end"], "budget_thorough": 7200},
     ],
 }
+
+P = "playlist/"
+
+
+def c14run(name, fn):
+    return {"name": name, "dir": "pkg/playlist", "files": [P + "c14_roundtrip.go"], "fn": fn, "workers": 16,
+            "params_quick": {"MAXINT": 99999}, "params_thorough": {"MAXINT": 2147483647}, "reach": ["roundtrip-done"],
+            "budget_quick": 900, "budget_thorough": 7200}
+
+
+CHECKS["C14"] = {
+    "technique": "symbolic field values (integers as symbolic decimal text, strings of arbitrary legal bytes, presence flags) through the real Marshal and Unmarshal; field-wise equality, fixpoint and syntactic variants asserted",
+    "bounds": {"quick": {"integers": "[0, 99999]", "strings": "0..2 arbitrary ASCII bytes legal in their position (plus a fixed prefix)", "fields symbolic at once": "one tag group (4-8 groups per harness)",
+                         "durations / date-times / frame rates": "enumerated boundary values, executed concretely (float formatting is not solver-decided)"},
+               "thorough": {"integers": "[0, 2^31-1]", "strings": "same", "fields": "same"}},
+    "assumptions": ["strconv / strings / time interpreted from source; strconv.Format{Int,Uint} of a symbolic integer modelled as symbolic decimal digits (fork on digit count)",
+                    "map iteration in insertion order (attribute order independence is exercised by the CRLF/unknown-tag variant only)",
+                    "local time zone = UTC"],
+    "outside": ["non-ASCII text", "arbitrary float values (enumerated only)", "combinations of tag groups beyond those listed in the harness"],
+    "runs": [c14run("run.pl.mediaHeader", "VerifH_C14_mediaHeader"), c14run("run.pl.segment", "VerifH_C14_segment"),
+             c14run("run.pl.parts", "VerifH_C14_parts"), c14run("run.pl.multivariant", "VerifH_C14_multivariant")],
+}
